@@ -114,8 +114,13 @@ def run_case(case, base):
     # symbolic links to directories: [link (below the root), target (relative to the link's directory, or /B/...)]
     for link, target in case.get("links", []):
         os.symlink(real(target, base), os.path.join(base, link))
+    # symbolic links to config / list FILES (created after the files were written; the target may be missing)
+    for link, target in case.get("file_links", []):
+        os.makedirs(os.path.dirname(os.path.join(base, link)), exist_ok=True)
+        os.symlink(real(target, base), os.path.join(base, link))
     start = os.path.join(base, case["start"])
-    listing = sorted("/B" + os.path.join(d, f)[len(base):] for d, _, fs in os.walk(base) for f in fs)
+    listing = sorted("/B" + os.path.join(d, f)[len(base):] for d, _, fs in os.walk(base) for f in fs
+                     if not os.path.islink(os.path.join(d, f)))  # the physical regular files
     dirs = sorted("/B" + d[len(base):] for d, _, _ in os.walk(base))  # the physical directories (links are not followed)
     os.chdir(start)
     given = real(top["given"], base)
@@ -178,7 +183,8 @@ def run_case(case, base):
     obs["cwd_before"] = canon(start)
     obs["files"] = listing
     obs["dirs"] = dirs
-    obs["links"] = [["/B/" + link, canon(os.path.realpath(os.path.join(base, link)))] for link, _ in case.get("links", [])]
+    obs["links"] = [["/B/" + link, canon(os.path.realpath(os.path.join(base, link)))]
+                    for link, _ in case.get("links", []) + case.get("file_links", [])]
     return obs
 
 
